@@ -1012,6 +1012,9 @@ func callBuiltin(caller *frame, callpos token.Pos, fn *ssa.Builtin, args []value
 		case string, sstr:
 			src = strBytes(s)
 		}
+		if I.monitorShared {
+			noteCopy(caller, args[0].([]value), len(src.([]value)))
+		}
 		return copy(args[0].([]value), src.([]value))
 
 	case "close": // close(chan T)
